@@ -216,6 +216,21 @@ def generate(rng, opts):
             extra = [_gen_member(rng, n, DEFAULT_KIND[n], "st", 1, cfg) for n in rng.sample(["n", "v"], rng.choice([1, 2]))]
             stub_c = {"k": "class", "name": "C", "doc": None, "bases": [], "members": [{"k": "func", "name": "m", "params": [["self", None, False]], "ret": "int", "doc": None}] + extra}
             sides["st"]["members"] = [m for m in sides["st"]["members"] if m["name"] != "C"] + [stub_c]
+    reexported_module = None
+    if placement == "stubs_pkg" and rng.random() < 0.15 and "pkg.c" not in modules:
+        # the os.path pattern: the package re-exports a private *module* under a public name
+        # (`from pkg import _compat as compat`) and the stubs package describes it at the public location
+        # (pkg-stubs/compat.pyi), with members the runtime module has and members it has not
+        reexported_module = {"public": "compat", "private": "_compat"}
+        rt_members = [_gen_member(rng, "f", "func", "rt", 0, cfg)] + ([_gen_member(rng, "x", "attr", "rt", 0, cfg)] if rng.random() < 0.5 else [])
+        st_members = [_gen_member(rng, "f", "func", "st", 0, cfg, like=rt_members[0]), _gen_member(rng, "g", "func", "st", 0, cfg)]
+        if rng.random() < 0.6:
+            k = _gen_member(rng, "K", "class", "st", 0, cfg)
+            k["members"] = [_gen_member(rng, "m", "func", "st", 1, cfg)]
+            st_members.append(k)
+        modules["pkg._compat"] = {"rt": {"doc": _gen_doc(rng, "rt pkg._compat"), "members": rt_members}, "st": None}
+        modules["pkg.compat"] = {"rt": None, "st": {"doc": _gen_doc(rng, "st pkg.compat"), "members": st_members}}
+        modules["pkg"]["rt"]["members"] = [m for m in modules["pkg"]["rt"]["members"] if m["name"] != "compat"] + [{"k": "import", "name": "compat", "from": "pkg", "orig": "_compat"}]
     if placement != "single" and any("pkg._impl" == m.get("from") for mod in modules.values() for side in ("rt", "st") if mod[side] for m in _all_members(mod[side]["members"])):  # incl. star imports
         modules["pkg._impl"] = {"rt": {"doc": None, "members": copy.deepcopy(IMPL_MEMBERS)}, "st": None}
     compiled = {}
@@ -230,7 +245,7 @@ def generate(rng, opts):
     schedules = [{"base": b, "stub_first": sf} for b in chosen for sf in (False, True)]
     rng.shuffle(schedules)
     return {
-        "world": {"placement": placement, "top": top, "modules": modules, "compiled": compiled, "stubs_other_sp": placement == "stubs_pkg" and rng.random() < 0.5, "stubs_sp_first": rng.random() < 0.5,
+        "world": {"placement": placement, "top": top, "modules": modules, "compiled": compiled, "reexported_module": reexported_module, "stubs_other_sp": placement == "stubs_pkg" and rng.random() < 0.5, "stubs_sp_first": rng.random() < 0.5,
                   # looking for a <pkg>-stubs package is an option of the caller, whether or not one exists
                   "find_stubs_package": placement == "stubs_pkg" or rng.random() < 0.3},
         "schedules": schedules,
@@ -431,9 +446,17 @@ def exp_world(world):
         if mp == "pkg._impl":
             node = {"kind": "module", "members_at_least": sorted(m["name"] for m in rt["members"])}
             return node
+        rex = world.get("reexported_module")
         for other in mods:
             if other.startswith(mp + ".") and "." not in other[len(mp) + 1 :]:
-                node["members"][other[len(mp) + 1 :]] = build(other)
+                child = other[len(mp) + 1 :]
+                if rex and mp == world["top"] and child == rex["public"] and f"{mp}.{rex['private']}" in mods:
+                    continue  # stays the runtime alias; its stubs are merged into the module it leads to (below)
+                node["members"][child] = build(other)
+        if rex and mp == world["top"] and f"{mp}.{rex['private']}" in mods and f"{mp}.{rex['public']}" in mods:
+            rt_side, st_side = mods[f"{mp}.{rex['private']}"]["rt"], mods[f"{mp}.{rex['public']}"]["st"]
+            if rt_side is not None and st_side is not None:
+                node["members"][rex["private"]] = {"kind": "module", "doc": _merge_doc(rt_side["doc"], st_side["doc"]), "members": exp_container(rt_side["members"], st_side["members"]), "runtime": True}
         return node
 
     return build(world["top"])
@@ -571,6 +594,10 @@ def _stub_real_defs(world):
     for mp, sides in world["modules"].items():
         if sides["st"] is not None:
             rec(mp, sides["st"]["members"])
+    for mp, sides in world["modules"].items():
+        if sides["st"] is not None and "." in mp:
+            parent, leaf = mp.rsplit(".", 1)
+            out.setdefault(parent, set()).add(leaf)  # a stubs module re-declares the name it has in its package
     return out
 
 
@@ -852,6 +879,8 @@ def execute(plan, ctx):
             ctx.probe("differs-across-base-orders(C14 matter)")
     n_both = sum(1 for s in world["modules"].values() if s["rt"] and s["st"])
     ctx.probe(f"placement-{world['placement']}")
+    if world.get("reexported_module"):
+        ctx.probe("stubs-at-public-location-of-reexported-module")
     if world.get("compiled"):
         ctx.probe("compiled-runtime-modules-with-stubs", sum(1 for mp in world["compiled"] if world["modules"].get(mp, {}).get("st")))
     ctx.probe("modules-with-both-sides", n_both)
